@@ -7,6 +7,8 @@ import (
 	"math/rand"
 	"sort"
 	"strings"
+
+	"github.com/onheap/eval"
 )
 
 func init() {
@@ -30,7 +32,7 @@ func init() {
 		Run: c10Run,
 		Floors: func(m *Merged, tier string) []string {
 			var u []string
-			for _, c := range []string{"custom_all_const_args_reached", "custom_all_const_args_unreached", "failing_const_reached", "failing_const_unreached", "stateless_folded_at_compile_time", "undeclared_runtime_calls", "vars_legitimately_folded_away", "zero_arg_ops"} {
+			for _, c := range []string{"custom_all_const_args_reached", "custom_all_const_args_unreached", "failing_const_reached", "failing_const_unreached", "stateless_folded_at_compile_time", "undeclared_runtime_calls", "vars_legitimately_folded_away", "zero_arg_ops", "derived_config_compilations"} {
 				if m.C(c) < 100 {
 					u = append(u, fmt.Sprintf("%s = %d (<100)", c, m.C(c)))
 				}
@@ -164,8 +166,71 @@ func requiredVars(n *Node, declared map[string]bool, folding bool, out map[strin
 	}
 }
 
+// c10Derived: two configs derived from one base (whose stateless list has spare capacity), each declaring
+// a different operator stateless. Only the operator a config declares itself may run during its Compile.
+func c10Derived(w *W, r *rand.Rand) {
+	calls := map[string]*int{}
+	mkOp := func(name string) eval.Operator {
+		n := new(int)
+		calls[name] = n
+		return func(ctx *eval.Ctx, p []eval.Value) (eval.Value, error) {
+			if ctx == nil {
+				*n++
+			}
+			return int64(len(p)), nil
+		}
+	}
+	base := eval.NewConfig(eval.Optimizations(true))
+	base.StatelessOperators = make([]string, 0, 1+r.Intn(6))
+	nBase := r.Intn(2)
+	for i := 0; i < nBase && len(base.StatelessOperators) < cap(base.StatelessOperators); i++ {
+		base.StatelessOperators = append(base.StatelessOperators, "add")
+	}
+	names := []string{"opA", "opB", "opC"}
+	for _, n := range names {
+		base.OperatorMap[n] = mkOp(n)
+	}
+	how := r.Intn(2)
+	derive := func() *eval.Config {
+		if how == 0 {
+			return eval.NewConfig(eval.ExtendConf(base))
+		}
+		return eval.CopyConfig(base)
+	}
+	var cfgs []*eval.Config
+	for i := range names {
+		c := derive()
+		c.StatelessOperators = append(c.StatelessOperators, names[i])
+		cfgs = append(cfgs, c)
+	}
+	src := "(+ (opA 1) (opB 1 2) (opC 1 2 3) x)"
+	for i, c := range cfgs {
+		eval.GetOrRegisterKey(c, "x")
+		for _, n := range names {
+			*calls[n] = 0
+		}
+		_, co := compileGuard(c, src)
+		w.Evals++
+		w.Inc("derived_config_compilations")
+		if co.Err != nil || co.Panic != nil {
+			w.Fail("derived-config-compile-fails", "Compile failed on a derived config: %v %v", co.Err, co.Panic)
+			continue
+		}
+		for j, n := range names {
+			if j != i && *calls[n] > 0 {
+				w.Fail("undeclared-operator-invoked-at-compile-time", "config %d (derived by %s from a base with spare capacity in StatelessOperators) declares only %s stateless, but %s was invoked %d time(s) during its Compile\nsource: %s\nStatelessOperators of this config: %v",
+					i, []string{"ExtendConf", "CopyConfig"}[how], names[i], n, *calls[n], src, c.StatelessOperators)
+			}
+		}
+	}
+}
+
 func c10Run(w *W, idx int) {
 	r := w.Rand(idx)
+	if idx%50 == 49 {
+		c10Derived(w, r)
+		return
+	}
 	var tree *Node
 	stratum := "shapes"
 	switch idx % 4 {
